@@ -37,7 +37,7 @@ def sbig(fr):
 DAY = 86400000
 SPANS = [1, 2, 5, 7, 8, 9, 10, 15, 30, 50, 100, 250, 500, 1000, 2000, 5000, 10000, 30000, 60000, 90000, 300000, 600000,
          900000, 1800000, 3600000, 7200000, 10800000, 21600000, 43200000, DAY, DAY * 3 // 2, 2 * DAY, 3 * DAY, 5 * DAY, 7 * DAY,
-         10 * DAY, 14 * DAY, 20 * DAY, 30 * DAY, 31 * DAY, 45 * DAY, 60 * DAY, 90 * DAY, 120 * DAY, 180 * DAY, 270 * DAY, 365 * DAY,
+         10 * DAY, 14 * DAY, 20 * DAY, 30 * DAY, 31 * DAY, 42 * DAY, 45 * DAY, 56 * DAY, 70 * DAY, 84 * DAY, 98 * DAY, 112 * DAY, 60 * DAY, 90 * DAY, 120 * DAY, 180 * DAY, 270 * DAY, 365 * DAY,
          366 * DAY, 500 * DAY, 730 * DAY, 1096 * DAY, 1826 * DAY, 2922 * DAY, 3652 * DAY, 7305 * DAY, 10957 * DAY, 18262 * DAY,
          36524 * DAY, 54786 * DAY, 73048 * DAY, 91310 * DAY]
 STARTS = []
@@ -99,7 +99,8 @@ def map_record(d0, d1, t, t2, rng):
            "r0": sbig(Fraction(r0s) * 10 ** 9), "r1": sbig(Fraction(r1s) * 10 ** 9),
            "y": sbig(Fraction(y) * 10 ** 9), "y2": sbig(Fraction(y2) * 10 ** 9), "ylin": sbig(Fraction(lin(ms_of(t))) * 10 ** 9),
            "at_d0": 1 if s(d0) == r0 else 0, "at_d1": 1 if s(d1) == r1 else 0,
-           "factor": min(factor, 10 ** 6), "inside": inside, "inv": [0, 0, 0]}
+           "factor": min(factor, 10 ** 6), "inside": inside, "inv": [0, 0, 0],
+           "cmp": (1 if y2 > y else (-1 if y2 < y else 0))}
     if inside and r0 != r1:
         rec["inv"] = proj(s.invert(y))
     return rec
@@ -159,6 +160,8 @@ def main():
                 us = (span * f) // MS * MS
                 t = d0 + us
                 t2 = t + abs(span) * rng.random() + MS
+                if rng.random() < 0.25:
+                    t2 = t + MS * rng.choice([1, 1, 2, 7])          # instants only milliseconds apart
                 if not (LO <= t <= HI and LO <= t2 <= HI):
                     continue
                 t2 = EPOCH + ((t2 - EPOCH) // MS) * MS
